@@ -256,9 +256,18 @@ def run(ctx):
     ss = repo.cls('cirq.sim.clifford.stabilizer_simulation_state.StabilizerSimulationState')
     fn = repo.method(ss.qual, '_strat_apply_gate')
     srel = ss.mod.rel
-    first = fn.body[0]
-    ok = isinstance(first, ast.If) and 'has_stabilizer_effect' in ast.unparse(first.test) and isinstance(first.test, ast.UnaryOp) \
-        and any(isinstance(s, ast.Return) and 'NotImplemented' in ast.unparse(s) for s in first.body)
+    # the refusal must dominate the dispatch chain: a top-level `if not has_stabilizer_effect(val): return NotImplemented`
+    # placed before the first statement that reaches a tableau rule
+    from ..core import call_name as _cn
+    ok = False
+    for st in fn.body:
+        if isinstance(st, ast.If) and isinstance(st.test, ast.UnaryOp) and isinstance(st.test.op, ast.Not) and isinstance(st.test.operand, ast.Call) \
+                and _cn(st.test.operand) == 'has_stabilizer_effect' and not st.orelse \
+                and isinstance(st.body[-1], ast.Return) and isinstance(st.body[-1].value, ast.Name) and st.body[-1].value.id == 'NotImplemented':
+            ok = True
+            break
+        if any(isinstance(n, ast.Attribute) and n.attr.startswith('apply_') or (isinstance(n, ast.Attribute) and n.attr == '_swap') for n in ast.walk(st)):
+            break
     ctx.ob('C13.c', f'{ss.qual}._strat_apply_gate:stabilizer-guard', ok, '' if ok else 'gates without stabilizer effect are no longer refused before dispatch', srel, fn.lineno)
     start = chains.longest_chain(fn, lambda t: chains.isinstance_classes(t, 'gate') is not None)
     if start is None:
